@@ -179,8 +179,9 @@ class Run:
             "trusted_base": self.trusted_base or ["CPython ast/symtable"],
             "source_digest": self.project.digest() if self.project else None,
             "source_root": self.project.root if self.project else None,
-            "exhaustive": True,
         }
+        if self.pid in PROOF_LEVEL:
+            cov["exhaustive"] = True  # the whole statement is a fact about finite tables, enumerated completely
         cov.update(self.coverage_extra)
         ev = {
             "property_id": self.pid,
